@@ -261,6 +261,7 @@ pub fn run_all(ctx: &Ctx, report: &mut crate::core::Report, prop: &str, cases: &
         }
     }
     report.sections.push(serde_json::json!({"part": "real TCP, 4-worker tokio runtime, library sockets on both sides, receiver in the block_on body and in a spawned task; run in a worker process under a wall-clock limit", "scenarios": cases.len()}));
+    crate::crumb::clear();
 }
 
 pub fn replay(ctx: &Ctx, prop: &str, case: &serde_json::Value) -> Vec<Failure> {
